@@ -1,7 +1,367 @@
+(* C44: proofs about the session-resumption model (model/TlsTicket.v). *)
 From Coq Require Import List ZArith Bool Lia.
 From Bfe Require Import lib.Val lib.ValProofs lib.Bytes model.TlsTicket run.RunC44.
 Import ListNotations.
 Open Scope Z_scope.
 
-Lemma xor_nil a : xor_bytes a [] = a.
-Proof. destruct a; reflexivity. Qed.
+Lemma firstn_app_exact {A} (a b : list A) n : n = length a -> firstn n (a ++ b) = a.
+Proof. intros ->. rewrite firstn_app, Nat.sub_diag, firstn_all. simpl. apply app_nil_r. Qed.
+Lemma skipn_app_exact {A} (a b : list A) n : n = length a -> skipn n (a ++ b) = b.
+Proof. intros ->. rewrite skipn_app, Nat.sub_diag, skipn_all. reflexivity. Qed.
+
+Section Generic.
+  Variable mac : list Z -> list Z -> list Z.
+  Variable ctr : list Z -> list Z -> list Z -> list Z.
+
+  Lemma ticket_split t : t = ticket_body t ++ ticket_tag t.
+  Proof. unfold ticket_body, ticket_tag. symmetry. apply firstn_skipn. Qed.
+
+  (* decryptTicket accepts nothing whose MAC (over everything before the tag) is not right *)
+  Lemma decrypt_mac_ok key t s : decrypt_ticket mac ctr key t = Some s -> mac_ok mac key t = true.
+  Proof.
+    unfold decrypt_ticket, mac_ok. destruct (blen t <? 48) eqn:E; [discriminate|].
+    destruct (bytes_eqb (ticket_tag t) (mac (mac_key key) (ticket_body t))); [|discriminate].
+    intros _. apply Z.ltb_ge in E. apply andb_true_iff. split; [apply Z.leb_le; lia|reflexivity].
+  Qed.
+  Lemma mac_ok_tag key t : mac_ok mac key t = true -> ticket_tag t = mac (mac_key key) (ticket_body t).
+  Proof. unfold mac_ok. intro H. apply andb_true_iff in H. destruct H as [_ H]. apply bytes_eqb_eq. exact H. Qed.
+
+  (* C44 headline.  Unforgeability premise for the presented ticket t: if its tag verifies under the
+     server's MAC key then the MAC'd bytes are bytes the server itself MAC'd when issuing some ticket. *)
+  Theorem only_own_unmodified : forall key (issued : list (list Z * sess)) t s,
+    (mac_ok mac key t = true ->
+     exists iv st, In (iv, st) issued /\ ticket_body t = iv ++ ctr (enc_key key) iv (marshal st)) ->
+    decrypt_ticket mac ctr key t = Some s ->
+    exists iv st, In (iv, st) issued /\ t = encrypt_ticket mac ctr key iv st.
+  Proof.
+    intros key issued t s Hunf Hd. pose proof (decrypt_mac_ok _ _ _ Hd) as Hok.
+    destruct (Hunf Hok) as [iv [st [Hin Hb]]]. exists iv, st. split; [exact Hin|].
+    unfold encrypt_ticket. rewrite <- Hb, <- (mac_ok_tag _ _ Hok). apply ticket_split.
+  Qed.
+
+  Section Collision.
+    (* HMAC is collision-free, also across keys, and 32 bytes long *)
+    Hypothesis mac_inj : forall k m k' m', mac k m = mac k' m' -> k = k' /\ m = m'.
+    Hypothesis mac_len : forall k m, length (mac k m) = 32%nat.
+
+    Lemma body_of_encrypt key iv st :
+      ticket_body (encrypt_ticket mac ctr key iv st) = iv ++ ctr (enc_key key) iv (marshal st) /\
+      ticket_tag (encrypt_ticket mac ctr key iv st) = mac (mac_key key) (iv ++ ctr (enc_key key) iv (marshal st)).
+    Proof.
+      unfold ticket_body, ticket_tag, encrypt_ticket. set (b := iv ++ ctr (enc_key key) iv (marshal st)).
+      assert (E : (length (b ++ mac (mac_key key) b) - 32 = length b)%nat) by (rewrite app_length, mac_len; lia).
+      rewrite E. split; [apply firstn_app_exact|apply skipn_app_exact]; reflexivity.
+    Qed.
+
+    (* a ticket issued under a different MAC key is rejected *)
+    Theorem foreign_key_rejected : forall key key' iv st,
+      mac_key key <> mac_key key' -> decrypt_ticket mac ctr key (encrypt_ticket mac ctr key' iv st) = None.
+    Proof.
+      intros key key' iv st Hk. destruct (decrypt_ticket mac ctr key _) as [s|] eqn:Hd; [|reflexivity].
+      exfalso. pose proof (mac_ok_tag _ _ (decrypt_mac_ok _ _ _ Hd)) as Ht.
+      destruct (body_of_encrypt key' iv st) as [Hb Hg]. rewrite Hb, Hg in Ht.
+      apply mac_inj in Ht. destruct Ht as [Ht _]. congruence.
+    Qed.
+
+    (* any change confined to the part before the tag (IV, ciphertext: flips, insertions, deletions), or
+       confined to the tag, is rejected *)
+    Theorem modified_rejected : forall key iv st t',
+      let t := encrypt_ticket mac ctr key iv st in
+      t' <> t -> (ticket_body t' = ticket_body t \/ ticket_tag t' = ticket_tag t) ->
+      decrypt_ticket mac ctr key t' = None.
+    Proof.
+      intros key iv st t' t Hne Hor. destruct (decrypt_ticket mac ctr key t') as [s|] eqn:Hd; [|reflexivity].
+      exfalso. pose proof (mac_ok_tag _ _ (decrypt_mac_ok _ _ _ Hd)) as Ht.
+      destruct (body_of_encrypt key iv st) as [Hb Hg]. fold t in Hb, Hg. apply Hne.
+      rewrite (ticket_split t'), (ticket_split t). destruct Hor as [E|E].
+      - rewrite E in *. rewrite Ht, Hg, Hb. reflexivity.
+      - rewrite E, Hg in Ht. apply mac_inj in Ht. destruct Ht as [_ Ht]. rewrite E, Hb, Ht. reflexivity.
+    Qed.
+
+    (* a truncated ticket of fewer than 48 bytes is rejected whatever the primitives *)
+    Theorem short_rejected : forall key t, blen t < 48 -> decrypt_ticket mac ctr key t = None.
+    Proof. intros key t H. unfold decrypt_ticket. apply Z.ltb_lt in H. rewrite H. reflexivity. Qed.
+  End Collision.
+
+  (* ---- checkForResumption ---- *)
+  Variable K : consts.
+  Variable table : list (Z * Z).
+
+  Lemma try_suite_sound p id sup v r : try_cipher_suite K table p id sup v = Some r ->
+    r = id /\ In id sup /\ exists fl, lookup_flags table id = Some fl /\ suite_usable K p fl v = true.
+  Proof.
+    induction sup as [|s sup IH]; simpl; [discriminate|].
+    destruct (id =? s) eqn:E.
+    - apply Z.eqb_eq in E. subst s. destruct (lookup_flags table id) as [fl|] eqn:El.
+      + destruct (suite_usable K p fl v) eqn:Eu.
+        * intro H. inversion H; subst. split; [reflexivity|]. split; [left; reflexivity|]. exists fl. auto.
+        * intro H. destruct (IH H) as [A [B C]]. auto.
+      + intro H. destruct (IH H) as [A [B C]]. auto.
+    - intro H. destruct (IH H) as [A [B C]]. auto.
+  Qed.
+
+  Lemma existsb_eqb_In x l : existsb (Z.eqb x) l = true <-> In x l.
+  Proof.
+    rewrite existsb_exists. split.
+    - intros [y [Hy E]]. apply Z.eqb_eq in E. subst. exact Hy.
+    - intro H. exists x. split; [exact H|apply Z.eqb_refl].
+  Qed.
+
+  Lemma mutual_version_range p v r : mutual_version K p v = Some r ->
+    min_version K p <= v /\ (r = v -> v <= max_version K p) /\ r <= v /\ (v <= max_version K p -> r = v).
+  Proof.
+    unfold mutual_version. destruct (v <? min_version K p) eqn:E; [discriminate|]. apply Z.ltb_ge in E.
+    destruct (v >? max_version K p) eqn:E2; intro H; inversion H as [Hr]; clear H.
+    - apply Z.gtb_lt in E2. lia.
+    - rewrite Z.gtb_ltb in E2. apply Z.ltb_ge in E2. lia.
+  Qed.
+
+  (* where the candidate session comes from: an accepted ticket, or the server's own cache under the
+     session id the client offered (cache configured and enabled) *)
+  Theorem candidate_source : forall p s, candidate mac ctr p = Some s ->
+    (ticket_path p = true /\ decrypt_ticket mac ctr (p_key p) (h_ticket p) = Some s) \/
+    (ticket_path p = false /\ h_sid p <> [] /\ p_cache_disabled p = false /\ p_cache_present p = true /\
+     exists v, cache_get (p_cache p) (h_sid p) = Some v /\ unmarshal v = Some s).
+  Proof.
+    intros p s. unfold candidate. destruct (ticket_path p); [intro H; left; auto|].
+    destruct (blen (h_sid p) =? 0) eqn:Es; [discriminate|].
+    destruct (p_cache_disabled p); simpl; [discriminate|]. destruct (p_cache_present p); [|discriminate].
+    destruct (cache_get (p_cache p) (h_sid p)) as [v|] eqn:Ec; [|discriminate].
+    intro H. right. repeat split; try reflexivity.
+    - intro E. rewrite E in Es. discriminate.
+    - exists v. auto.
+  Qed.
+
+  (* the policy: every clause that checkForResumption enforces before resuming *)
+  Theorem resumption_policy : forall p s suite,
+    check_for_resumption mac ctr K table p = Some (s, suite) ->
+    candidate mac ctr p = Some s /\
+    (* the cipher suite of the resumed connection is the session's, still offered by the client,
+       still in the server's configured list, and usable under the connection's flags *)
+    suite = s_suite s /\ In (s_suite s) (h_suites p) /\ In (s_suite s) (p_suites p) /\
+    (exists fl, lookup_flags table (s_suite s) = Some fl /\ suite_usable K p fl (s_vers s) = true) /\
+    (* the session's version is not above the client's and inside the configured range *)
+    s_vers s <= h_vers p /\ min_version K p <= s_vers s <= max_version K p /\
+    (* client certificates: a requirement is never skipped, certificates are never carried into a
+       connection that asks for none *)
+    ((p_auth p = k_require_any K \/ p_auth p = k_require_verify K) -> s_certs s <> []) /\
+    (s_certs s <> [] -> p_auth p <> k_no_cert K).
+  Proof.
+    intros p s suite. unfold check_for_resumption.
+    destruct (candidate mac ctr p) as [s0|] eqn:Ec; [|discriminate].
+    destruct (s_vers s0 >? h_vers p) eqn:Ev; [discriminate|].
+    destruct (mutual_version K p (s_vers s0)) as [v|] eqn:Em; [|discriminate].
+    destruct (negb (v =? s_vers s0)) eqn:Evv; [discriminate|].
+    destruct (negb (existsb (Z.eqb (s_suite s0)) (h_suites p))) eqn:Eo; [discriminate|].
+    destruct (try_cipher_suite K table p (s_suite s0) (p_suites p) (s_vers s0)) as [r|] eqn:Et; [|discriminate].
+    set (hc := negb (Z.of_nat (length (s_certs s0)) =? 0)).
+    set (need := (p_auth p =? k_require_any K) || (p_auth p =? k_require_verify K)).
+    destruct (need && negb hc) eqn:E1; [discriminate|].
+    destruct (hc && (p_auth p =? k_no_cert K)) eqn:E2; [discriminate|].
+    intro H. inversion H; subst s0 r. clear H.
+    destruct (try_suite_sound _ _ _ _ _ Et) as [Hr [Hin Hfl]].
+    apply negb_false_iff, Z.eqb_eq in Evv. apply negb_false_iff, existsb_eqb_In in Eo.
+    destruct (mutual_version_range _ _ _ Em) as [Hmin [Hmax _]].
+    assert (Hgt : s_vers s <= h_vers p) by (rewrite Z.gtb_ltb in Ev; apply Z.ltb_ge in Ev; exact Ev).
+    repeat split; auto; try lia.
+    - intros Hneed Hnil. assert (need = true).
+      { unfold need. apply orb_true_iff. destruct Hneed as [Hn|Hn]; [left|right]; apply Z.eqb_eq; exact Hn. }
+      assert (hc = false) by (unfold hc; rewrite Hnil; reflexivity).
+      rewrite H, H0 in E1. discriminate.
+    - intros Hc Ha. assert (hc = true).
+      { unfold hc. destruct (s_certs s); [contradiction|reflexivity]. }
+      rewrite H, Ha, Z.eqb_refl in E2. discriminate.
+  Qed.
+
+  (* parameters of the resumed connection.  It runs at conn_version = mutualVersion(clientHello.vers)
+     with the session's master secret (s is what doResumeHandshake installs) and suite.  The version
+     clause: the session's version is never ABOVE the connection's, and equals it when the client offers
+     exactly the session's version; it can be lower otherwise (finding 1, C44_version_refuted). *)
+  Theorem params_preserved_partial : forall p s suite cv,
+    check_for_resumption mac ctr K table p = Some (s, suite) -> conn_version K p = Some cv ->
+    suite = s_suite s /\ s_vers s <= cv /\ (h_vers p = s_vers s -> cv = s_vers s).
+  Proof.
+    intros p s suite cv H Hc. destruct (resumption_policy _ _ _ H) as [_ [Hs [_ [_ [_ [Hv [[Hmin Hmax] _]]]]]]].
+    split; [exact Hs|]. unfold conn_version in Hc.
+    destruct (mutual_version_range _ _ _ Hc) as [_ [_ [Hle Heq]]].
+    unfold mutual_version in Hc. destruct (h_vers p <? min_version K p); [discriminate|].
+    destruct (h_vers p >? max_version K p) eqn:E; inversion Hc; subst cv.
+    - split; [lia|]. intro E2. apply Z.gtb_lt in E. lia.
+    - split; [lia|]. intro E2. lia.
+  Qed.
+End Generic.
+
+(* ---- sessionState.unmarshal inverts marshal ---- *)
+Lemma be16_val n : 0 <= n < 65536 -> (n / 256) mod 256 * 256 + n mod 256 = n.
+Proof. intro H. pose proof (Z.div_mod n 256 ltac:(lia)). pose proof (Z.mod_pos_bound n 256 ltac:(lia)).
+  assert (0 <= n / 256 < 256) by (split; [apply Z.div_pos; lia|apply Z.div_lt_upper_bound; lia]).
+  rewrite (Z.mod_small (n / 256)) by lia. lia. Qed.
+Lemma be32_val n : 0 <= n < 16777216 ->
+  (((n / 16777216) mod 256 * 256 + (n / 65536) mod 256) * 256 + (n / 256) mod 256) * 256 + n mod 256 = n.
+Proof.
+  intro H. rewrite (Z.div_small n 16777216) by lia. rewrite Z.mod_0_l by lia.
+  assert (0 <= n / 65536 < 256) by (split; [apply Z.div_pos; lia|apply Z.div_lt_upper_bound; lia]).
+  rewrite (Z.mod_small (n / 65536)) by lia.
+  pose proof (Z.div_mod n 256 ltac:(lia)). pose proof (Z.mod_pos_bound n 256 ltac:(lia)).
+  pose proof (Z.div_mod (n / 256) 256 ltac:(lia)). pose proof (Z.mod_pos_bound (n / 256) 256 ltac:(lia)).
+  assert (n / 256 / 256 = n / 65536) by (rewrite Z.div_div by lia; reflexivity). lia.
+Qed.
+
+Lemma un_certs_S f k d : un_certs (S f) k d =
+  if k <=? 0 then Some ([], d)
+  else match d with
+       | b0 :: b1 :: b2 :: b3 :: d' =>
+         let n := ((b0 * 256 + b1) * 256 + b2) * 256 + b3 in
+         if blen d' <? n then None
+         else match un_certs f (k - 1) (skipn (Z.to_nat n) d') with
+              | Some (cs, rest) => Some (firstn (Z.to_nat n) d' :: cs, rest)
+              | None => None
+              end
+       | _ => None
+       end.
+Proof. reflexivity. Qed.
+
+Lemma firstn_app_len {A} (a b : list A) : firstn (length a) (a ++ b) = a.
+Proof. rewrite firstn_app, Nat.sub_diag, firstn_all. simpl. apply app_nil_r. Qed.
+Lemma skipn_app_len {A} (a b : list A) : skipn (length a) (a ++ b) = b.
+Proof. rewrite skipn_app, Nat.sub_diag, skipn_all. reflexivity. Qed.
+
+Lemma un_certs_marshal : forall cs fuel rest,
+  (length cs <= fuel)%nat -> forallb (fun c => wf_bytes c && (blen c <? 16777216)) cs = true ->
+  un_certs fuel (Z.of_nat (length cs)) (flat_map marshal_cert cs ++ rest) = Some (cs, rest).
+Proof.
+  induction cs as [|c cs IH]; intros fuel rest Hf Hw.
+  - destruct fuel; reflexivity.
+  - destruct fuel as [|f]; [simpl in Hf; lia|]. rewrite un_certs_S.
+    replace (Z.of_nat (length (c :: cs)) <=? 0) with false by (symmetry; apply Z.leb_gt; simpl length; lia).
+    cbn [forallb] in Hw. apply andb_true_iff in Hw. destruct Hw as [Hc Hw]. apply andb_true_iff in Hc.
+    destruct Hc as [_ Hc]. apply Z.ltb_lt in Hc.
+    cbn [flat_map]. unfold marshal_cert at 1. unfold be32. cbn [app].
+    assert (Hpos : 0 <= blen c) by (unfold blen; lia).
+    cbv zeta. rewrite (be32_val (blen c)) by lia. rewrite <- !app_assoc.
+    replace (blen (c ++ flat_map marshal_cert cs ++ rest) <? blen c) with false
+      by (symmetry; apply Z.ltb_ge; unfold blen; rewrite app_length; lia).
+    unfold blen. rewrite !Nat2Z.id, skipn_app_len, firstn_app_len.
+    replace (Z.of_nat (length (c :: cs)) - 1) with (Z.of_nat (length cs)) by (simpl length; lia).
+    rewrite IH; [reflexivity|simpl in Hf; lia|exact Hw].
+Qed.
+
+Lemma flat_len cs : (length cs <= length (flat_map marshal_cert cs))%nat.
+Proof.
+  induction cs as [|c cs IH]; [simpl; lia|]. cbn [flat_map]. rewrite app_length. unfold marshal_cert at 1.
+  rewrite app_length. unfold be32. simpl length. lia.
+Qed.
+
+Lemma unmarshal_marshal s : wf_sess s = true -> unmarshal (marshal s) = Some s.
+Proof.
+  destruct s as [v c m cs]. unfold wf_sess. cbn [s_vers s_suite s_master s_certs]. intro H.
+  repeat (apply andb_true_iff in H; destruct H as [H ?]).
+  repeat match goal with H : (_ <=? _) = true |- _ => apply Z.leb_le in H | H : (_ <? _) = true |- _ => apply Z.ltb_lt in H end.
+  unfold marshal. cbn [s_vers s_suite s_master s_certs]. unfold be16. cbn [app].
+  unfold unmarshal.
+  match goal with |- context [blen ?d <? 8] => destruct (blen d <? 8) eqn:E end.
+  { exfalso. apply Z.ltb_lt in E. unfold blen in E. cbn [length] in E. rewrite app_length in E. cbn [length] in E. lia. }
+  cbv zeta. assert (Hm : 0 <= blen m) by (unfold blen; lia).
+  rewrite (be16_val (blen m)) by lia. rewrite (be16_val v) by lia. rewrite (be16_val c) by lia.
+  match goal with |- context [blen ?d <? blen m] => replace (blen d <? blen m) with false
+      by (symmetry; apply Z.ltb_ge; unfold blen; rewrite app_length; lia) end.
+  unfold blen at 1 2. rewrite Nat2Z.id, skipn_app_len, firstn_app_len.
+  rewrite (be16_val (Z.of_nat (length cs))) by lia.
+  rewrite <- (app_nil_r (flat_map marshal_cert cs)) at 2.
+  rewrite un_certs_marshal; [reflexivity| |assumption].
+  apply le_S, flat_len.
+Qed.
+
+(* own unmodified tickets are honoured: decryptTicket inverts encryptTicket *)
+Section Roundtrip.
+  Variable mac : list Z -> list Z -> list Z.
+  Variable ctr : list Z -> list Z -> list Z -> list Z.
+  Hypothesis ctr_inv : forall k iv d, ctr k iv (ctr k iv d) = d.
+  Hypothesis mac_len : forall k m, length (mac k m) = 32%nat.
+
+  Theorem decrypt_encrypt : forall key iv st, length iv = 16%nat -> wf_sess st = true ->
+    decrypt_ticket mac ctr key (encrypt_ticket mac ctr key iv st) = Some st.
+  Proof.
+    intros key iv st Hiv Hwf. unfold decrypt_ticket.
+    destruct (body_of_encrypt mac ctr mac_len key iv st) as [Hb Hg]. rewrite Hb, Hg.
+    unfold bytes_eqb. rewrite list_Z_eqb_refl. cbn [negb].
+    set (ct := ctr (enc_key key) iv (marshal st)) in *.
+    assert (E : blen (encrypt_ticket mac ctr key iv st) <? 48 = false).
+    { apply Z.ltb_ge. unfold encrypt_ticket, blen. fold ct. rewrite !app_length, mac_len, Hiv. lia. }
+    rewrite E.
+    assert (F : firstn 16 (encrypt_ticket mac ctr key iv st) = iv).
+    { unfold encrypt_ticket. fold ct. rewrite <- app_assoc. rewrite <- Hiv. apply firstn_app_len. }
+    rewrite F. rewrite <- Hiv, skipn_app_len. unfold ct. rewrite ctr_inv. apply unmarshal_marshal, Hwf.
+  Qed.
+End Roundtrip.
+
+(* ---- the version clause fails: a TLS 1.0 session from the cache is resumed on a TLS 1.2 connection ---- *)
+Definition K0 : consts := mkConsts 1 2 4 8 16 1 3 0 2 4 771 768 771.
+Definition table0 : list (Z * Z) := [(47, 0); (49199, 5)].
+Definition sess10 : sess := mkSess 769 47 (repeat 7 48) [].
+Definition pol_refute : policy :=
+  mkPolicy (repeat 0 32) false false true [([1; 2; 3], marshal sess10)] 0 0 [47] 0
+           771 [49199; 47] true [] [1; 2; 3] true false false 0.
+Lemma version_refuted_lemma : forall mac ctr,
+  check_for_resumption mac ctr K0 table0 pol_refute = Some (sess10, 47) /\
+  conn_version K0 pol_refute = Some 771 /\ s_vers sess10 < 771.
+Proof. intros mac ctr. vm_compute. repeat split. Qed.
+
+(* ---- prop_C44 holds of the model on checkForResumption inputs outside finding 1 ---- *)
+Lemma sess_eqb_refl s : sess_eqb s s = true.
+Proof. unfold sess_eqb. rewrite !Z.eqb_refl. unfold bytes_eqb. rewrite list_Z_eqb_refl, val_eqb_refl. reflexivity. Qed.
+
+Lemma as_LB_vLB cs : as_LB (vLB cs) = Some cs.
+Proof. unfold as_LB, vLB. induction cs as [|x cs IH]; [reflexivity|]. simpl in *. rewrite IH. reflexivity. Qed.
+Lemma dec_enc_sess s : dec_sess (VL (enc_sess s)) = Some s.
+Proof.
+  destruct s as [v c m cs]. unfold enc_sess, dec_sess. cbn [s_vers s_suite s_master s_certs].
+  rewrite as_LB_vLB. reflexivity.
+Qed.
+
+Theorem prop_C44_of_model_policy : forall k tb p col ks K table pol,
+  dec_consts k = Some K -> all_some (map dec_pair tb) = Some table -> dec_policy p = Some pol ->
+  let i := VL [VZ 3; k; VL tb; p; VB col; VB ks] in
+  kf_C44 i = 0 -> prop_C44 i (run_C44 i) = true.
+Proof.
+  intros k tb p col ks K table pol Hk Ht Hp i Hkf. unfold kf_C44 in Hkf. subst i.
+  unfold run_C44, prop_C44 in *. rewrite Hk, Ht, Hp in *.
+  destruct (conn_version K pol) as [cv|] eqn:Ecv; [|reflexivity].
+  destruct (check_for_resumption (cmac col) (cctr ks) K table pol) as [[s suite]|] eqn:Ec; [|reflexivity].
+  unfold enc_sess in *. cbv iota beta in Hkf. cbv iota beta.
+  destruct (s_vers s =? cv) eqn:Ev; [|discriminate]. apply Z.eqb_eq in Ev.
+  change (VL [VZ (s_vers s); VZ (s_suite s); VB (s_master s); vLB (s_certs s)]) with (VL (enc_sess s)).
+  rewrite dec_enc_sess.
+  destruct (resumption_policy _ _ _ _ _ _ _ Ec) as [Hc [Hs [Ho [He [[fl [Hl Hu]] [Hv [[Hmin Hmax] [Hn Hnc]]]]]]]].
+  unfold prop_resume. rewrite Hl, <- Ev, Hu.
+  assert (P1 : (if ticket_path pol
+     then tag_ok (h_ticket pol) col &&
+          match unmarshal (ticket_plain (h_ticket pol) ks) with Some s0 => sess_eqb s0 s | None => false end
+     else negb (blen (h_sid pol) =? 0) && negb (p_cache_disabled pol) && p_cache_present pol &&
+          match cache_get (p_cache pol) (h_sid pol) with
+          | Some v => match unmarshal v with Some s0 => sess_eqb s0 s | None => false end
+          | None => false
+          end) = true).
+  { destruct (candidate_source _ _ _ _ Hc) as [[Htp Hd]|[Htp [Hsid [Hcd [Hcp [v [Hg Hun]]]]]]]; rewrite Htp.
+    - unfold decrypt_ticket in Hd. unfold tag_ok. destruct (blen (h_ticket pol) <? 48) eqn:E48; [discriminate|].
+      apply Z.ltb_ge in E48. replace (48 <=? blen (h_ticket pol)) with true by (symmetry; apply Z.leb_le; lia).
+      unfold cmac in Hd. unfold ticket_tag in Hd.
+      destruct (bytes_eqb (skipn (length (h_ticket pol) - 32) (h_ticket pol)) col); [|discriminate].
+      cbn [negb] in Hd. cbv iota in Hd. unfold cctr, ticket_body in Hd. unfold ticket_plain. cbn [andb]. rewrite Hd. apply sess_eqb_refl.
+    - rewrite Hcd, Hcp, Hg, Hun, sess_eqb_refl. simpl.
+      destruct (h_sid pol); [contradiction|reflexivity]. }
+  rewrite P1. rewrite Hs, Z.eqb_refl, Z.eqb_refl.
+  apply (existsb_eqb_In (s_suite s)) in Ho. apply (existsb_eqb_In (s_suite s)) in He. rewrite Ho, He.
+  replace (min_version K pol <=? s_vers s) with true by (symmetry; apply Z.leb_le; lia).
+  replace (s_vers s <=? max_version K pol) with true by (symmetry; apply Z.leb_le; lia).
+  replace (s_vers s <=? h_vers pol) with true by (symmetry; apply Z.leb_le; lia).
+  simpl.
+  destruct (Z.of_nat (length (s_certs s)) =? 0) eqn:Ecs; simpl.
+  - assert (Hnil : s_certs s = []) by (destruct (s_certs s); [reflexivity|discriminate]).
+    destruct (p_auth pol =? k_require_any K) eqn:E1; [apply Z.eqb_eq in E1; exfalso; apply (Hn (or_introl E1) Hnil)|].
+    destruct (p_auth pol =? k_require_verify K) eqn:E2; [apply Z.eqb_eq in E2; exfalso; apply (Hn (or_intror E2) Hnil)|].
+    reflexivity.
+  - assert (Hne : s_certs s <> []) by (destruct (s_certs s); [discriminate|discriminate]).
+    specialize (Hnc Hne). apply Z.eqb_neq in Hnc. rewrite Hnc.
+    destruct ((p_auth pol =? k_require_any K) || (p_auth pol =? k_require_verify K)); reflexivity.
+Qed.
